@@ -26,6 +26,7 @@ func init() {
 			"J5 the key encoders hand out the key unencoded only where the dominating guards exclude '%' and '/' (search calls with constant needles; byte-wise predicate helpers are folded per byte value), everything else they hand out is the result of url.PathEscape. " +
 			"J4 identity: a fork taken from Node.forks by its parsed number is returned only after its own name was compared with the requested one; J1 samples include call ids that begin with fork/chnk. " +
 			"J6 a call's qualified name used as a file-name prefix for removal ends with the separator. " +
+			"J8 makeUniquifier compares the previous uniquifier with the clock by order. " +
 			"NOT decided: injectivity of nested mixed array/map fork numbering (arithmetic on run-time lengths), collisions between -u<uniq> directories.",
 		Assumptions: append([]string{"net/url.PathEscape escapes '%', '/', and every byte outside the RFC 3986 unreserved/sub-delims set (evaluated from the Go standard library the checker is built with)"}, commonAssumptions...),
 	}
@@ -109,6 +110,7 @@ func runC11(c *an.Ctx) {
 	ruleJ5(c)
 	ruleJ7(c)
 	ruleJ6(c)
+	ruleUniqOrder(c, "J8")
 	// ---------------- J1 ----------------
 	repl := globalInitCall(p, pkgCore, "encodeJournalName")
 	reCall := globalInitCall(p, pkgCore, "jobJournalRe")
